@@ -348,6 +348,17 @@ impl FromStr for RustType {
     }
 }
 
+/// The next type argument of a container or smart pointer type, or an error when it was
+/// written without one (`Vec`, `HashMap<K>`, `Box`).
+fn required_parameter(
+    id: &str,
+    parameters: &mut impl Iterator<Item = RustType>,
+) -> Result<RustType, RustTypeParseError> {
+    parameters
+        .next()
+        .ok_or_else(|| RustTypeParseError::UnsupportedType(vec![id.to_owned()]))
+}
+
 impl TryFrom<&syn::Type> for RustType {
     type Error = RustTypeParseError;
 
@@ -377,16 +388,16 @@ impl TryFrom<&syn::Type> for RustType {
                 };
                 match id.as_str() {
                     "Vec" => Self::Special(SpecialRustType::Vec(
-                        parameters.into_iter().next().unwrap().into(),
+                        required_parameter(&id, &mut parameters.into_iter())?.into(),
                     )),
                     "Option" => Self::Special(SpecialRustType::Option(
-                        parameters.into_iter().next().unwrap().into(),
+                        required_parameter(&id, &mut parameters.into_iter())?.into(),
                     )),
                     "HashMap" => {
                         let mut params = parameters.into_iter();
                         Self::Special(SpecialRustType::HashMap(
-                            params.next().unwrap().into(),
-                            params.next().unwrap().into(),
+                            required_parameter(&id, &mut params)?.into(),
+                            required_parameter(&id, &mut params)?.into(),
                         ))
                     }
                     "OffsetDateTime" => Self::Special(SpecialRustType::DateTime),
@@ -394,7 +405,9 @@ impl TryFrom<&syn::Type> for RustType {
                     // These smart pointers can be treated as their inner type since serde can handle it
                     // See impls of serde::Deserialize
                     "Box" | "Weak" | "Arc" | "Rc" | "Cow" | "ArcWeak" | "RcWeak" | "Cell"
-                    | "Mutex" | "RefCell" | "RwLock" => parameters.into_iter().next().unwrap(),
+                    | "Mutex" | "RefCell" | "RwLock" => {
+                        required_parameter(&id, &mut parameters.into_iter())?
+                    }
                     "bool" => Self::Special(SpecialRustType::Bool),
                     "char" => Self::Special(SpecialRustType::Char),
                     "u8" => Self::Special(SpecialRustType::U8),
